@@ -193,7 +193,7 @@ func (c02) Gen(r *R, tier string) any {
 	if r.P(0.5) {
 		o := genCfg(r)
 		p.Other = &o
-		p.Routes = [2]int{r.Intn(6), r.Intn(6)}
+		p.Routes = [2]int{r.Intn(5), r.Intn(5)}
 	}
 	k := r.Intn(4)
 	kinds := []string{"ows_left", "ows_right", "ows_both", "empty", "split", "split", "empty_line"}
@@ -559,10 +559,17 @@ func permits(c Cfg, in Intent) (bool, string) {
 }
 
 // viaRoute builds a middleware that is in state (cfg, debug) by the given route.
-func viaRoute(route int, cfg Cfg, other *Cfg, debug bool, c *Ctx) (m *cors.Middleware, ok bool) {
+// It also returns the configuration that was actually PASSED to the last
+// successful constructor/Reconfigure call: for route 4 that is what Config()
+// returned — an accepted configuration in its own right — and the browser's
+// verdict is judged against that one, so that a defect of Config() (C06) is
+// not reported here.
+func viaRoute(route int, cfg Cfg, other *Cfg, debug bool, c *Ctx) (m *cors.Middleware, installed Cfg, ok bool) {
+	installed = cfg
 	if other == nil {
 		route = 0
 	}
+	route %= 5
 	pan := catch(func() {
 		cc := cfg.Config()
 		switch route {
@@ -608,44 +615,35 @@ func viaRoute(route int, cfg Cfg, other *Cfg, debug bool, c *Ctx) (m *cors.Middl
 				return
 			}
 			m.SetDebug(debug)
-			if m.Reconfigure(m.Config()) != nil {
-				m = nil
-			}
-		case 5:
-			var err error
-			if m, err = cors.NewMiddleware(other.Config()); err != nil {
-				m = nil
+			snap := m.Config()
+			if snap == nil || m.Reconfigure(snap) != nil {
+				m = nil // Config() not re-accepted: C06's business, nothing to judge here
 				return
 			}
-			m.SetDebug(debug)
-			bad := plantAll(cfg, []Planted{{Kind: 8}, {Kind: 5, Arg: 1}})
-			bc := bad.Config()
-			m.Reconfigure(&bc)
-			if m.Reconfigure(&cc) != nil {
-				m = nil
-			}
+			installed = *fromConfig(snap)
 		}
 	})
 	if pan != "" || m == nil {
-		return nil, false
+		return nil, installed, false
 	}
 	if route != 0 {
 		c.hit("state_reached_via_history_route")
 	}
-	return m, true
+	return m, installed, true
 }
 
 func (c02) Exec(plan any, c *Ctx) *Violation {
 	p := plan.(*C02Plan)
-	mOff, ok1 := viaRoute(p.Routes[0], p.Cfg, p.Other, false, c)
-	mOn, ok2 := viaRoute(p.Routes[1], p.Cfg, p.Other, true, c) // live state, set through the public API
+	mOff, cfgOff, ok1 := viaRoute(p.Routes[0], p.Cfg, p.Other, false, c)
+	mOn, cfgOn, ok2 := viaRoute(p.Routes[1], p.Cfg, p.Other, true, c) // live state, set through the public API
 	if !ok1 || !ok2 {
 		c.hit("generator_rejected")
 		return nil
 	}
 	srvOff, srvOn := newServer(mOff.Wrap), newServer(mOn.Wrap)
 	for _, in := range p.Intents {
-		want, why := permits(p.Cfg, in)
+		wantOff, whyOff := permits(cfgOff, in)
+		wantOn, whyOn := permits(cfgOn, in)
 		if in.Creds {
 			c.hit("credentialed_intent")
 		}
@@ -668,6 +666,10 @@ func (c02) Exec(plan any, c *Ctx) *Violation {
 		} {
 			if variant.alts == nil && variant.name != "debug=off" && variant.name != "debug=on" {
 				continue
+			}
+			want, why := wantOff, whyOff
+			if variant.debug {
+				want, why = wantOn, whyOn
 			}
 			var trace []string
 			v := browserFetch(variant.srv, in, variant.alts, c, &trace)
